@@ -83,6 +83,10 @@ Variants(S, z, lo) ==
   \o << [g |-> "subsite", S |-> S, z |-> z, lo |-> lo] >>
   \* the same site below a root that is not targeted itself:  Town (a community) -> { Site -> {Z1, Z2, ...} }  (seed C13e)
   \o << [g |-> "community", S |-> S, z |-> z, lo |-> lo] >>
+  \* the same site directly below a region (no community level):  Land (a region) -> { Site -> {Z1, Z2, ...} }
+  \o << [g |-> "region", S |-> S, z |-> z, lo |-> lo] >>
+  \* two identical parallel branches handed over as ONE schema object listed twice in a validated request model
+  \o (IF Twin(S) # {} THEN << [g |-> "twinobj"] @@ Parallel(S, z, Min(Twin(S))) @@ [lo |-> lo, twin |-> Min(Twin(S))] >> ELSE <<>>)
   \* the same problem with unit-operation zones targeted as well (option DO_DIRECT_OPERATION_TARGETING): the site and
   \* process-zone records must not change (seed C09e)
   \o << [g |-> "ops", S |-> S, z |-> z, lo |-> lo] >>
